@@ -567,7 +567,10 @@ class Case:
                 # not yet a violation: becomes one when such a trial is touched (checked at the CAS)
                 self.count("read_reports_non_stale")
             if truth - set(ids):
-                self.fail_model("stale read missed ids %s (returned %s)" % (sorted(truth - set(ids)), ids))
+                # judged by the harness's own heartbeat clock: a RUNNING trial whose last heartbeat is older than
+                # the grace period was not reported stale, so this sweep will not fail it
+                self.violation("stale-not-noticed", "worker %d's sweep did not notice stale trial id(s) %s (RUNNING, heartbeat older than the grace period by the harness's clock); the stale query returned %s" % (
+                    i, sorted(truth - set(ids)), ids))
             self.model_sweep(i, nums, {"e": "read", "w": i, "ids": nums})
         elif name == "set_trial_state_values":
             tid = info["id"]
@@ -660,7 +663,9 @@ class Case:
                             self.trace.append(["tick", d])
                         continue
                 elif sched.random() < spec["p_tick"]:
-                    d = sched.choice([100, 200, 300, 400])
+                    # (now and then a worker has been dead for more than a day: the age must be compared as a
+                    # whole duration, not by its seconds component)
+                    d = sched.choice([100, 200, 300, 400, 100, 200, 300, 400, 86400 + 100])
                     self.age(d)
                     self.trace.append(["tick", d])
                     self.count("ticks")
